@@ -38,6 +38,10 @@ def corpus():
     cs.append(mk(es, ns, [10], (0, 4, 0, 2), (2, 2), 1.0, "spacing", "malformed"))
     cs.append(mk(es, ns, [10], (0, 4, 0, 2), None, None, "spacing", "malformed"))
     cs.append(mk(es, ns, [10], (4, 0, 0, 2), None, 1.0, "spacing", "malformed"))
+    # whole-number regions whose adjusted bounds are fractional (adjust="region", spacing not dividing the extent): a bound of 9.6 is 9.6
+    for sp_ in (2.4, (1.7, 2.4), 3.3):
+        cs.append(mk(es, ns, [10], (0, 10, 0, 5), None, sp_, "region", "corpus-integer-region-adjusted"))
+        cs.append(mk([x * 2.5 for x in es], [y * 2.5 for y in ns], [10], (-3, 11, -2, 7), None, sp_, "region", "corpus-integer-region-adjusted"))
     # points strictly inside a block but only extent * 2^-31 away from its east / north edge (their two nearest centres differ in distance by
     # far more than round-off: decided, not ambiguous), next to points as close on the other side of the same edges
     d_ = 2.0 ** -28
@@ -104,7 +108,12 @@ def impl(case):
                 vd.block_split((e * 0.5 + 1.0, n * 0.5 - 1.0), spacing=None, adjust=adjust, region=region, shape=shape)
         except Exception:  # noqa: BLE001  (the warm-up arguments may be invalid; only the call under test counts)
             pass
-    r = C.call(vd.block_split, (e, n), spacing=spacing, adjust=adjust, region=region, shape=shape)
+    reg_arg = region
+    if region is not None and len(region) == 4 and all(float(v).is_integer() for v in region):
+        # whole-number bounds as the caller has them: Python ints, or an integer array (a region read from metadata)
+        k_ = zlib.crc32(("intregion" + case["op"][:2000]).encode()) % 3
+        reg_arg = [int(v) for v in region] if k_ == 0 else np.array(region).astype("int64") if k_ == 1 else region
+    r = C.call(vd.block_split, (e, n), spacing=spacing, adjust=adjust, region=reg_arg, shape=shape)
     if C.is_err(r):
         return r
     (be, bn), labels = r
